@@ -55,6 +55,16 @@ CHECKS = {
          "The C02 input stream (seeds, truncations, deterministic boundary sweep, shape generators, stacked mutations with integrity fix-ups) for all 18 CascFormat types; every accepted input must rebuild, re-parse, rebuild byte-identically and keep its logical projection. Builder programs for size manifest, patch archive, patch index, build/CDN/patch/keyring config, BPSV and ESpec must parse back to what was built. Every repo CDN fixture must rebuild to identical bytes.",
          "Trusted: the projections in harness/c02/src/project.rs (entries, keys, sizes, flags, tags; not raw buffers, derived counts, layout offsets or record order where build() sorts). Inputs that crash or over-allocate are left to C02. Values in a named non-round-tripping class get that class as their key (Project::diagnose).",
          "DESIGN.md §3 C08"),
+ "C02": ("iso", "exploration",
+         "mutation fuzzing in isolated worker processes with a crash / abort / allocation-size / CPU-budget oracle: seeds (repo fixtures + builder outputs), every short truncation, a deterministic boundary-value sweep over header and trailer fields, integrity fix-up mutators, deep-shape generators and stacked random mutations for 31 parser targets",
+         "Every parser/decoder that accepts outside bytes (BLTE parse+decompress, encoding, CDN archive index/group/chunked, root, install, download, size, TVFS, patch archive/index, ZBSDIFF parse+apply, all configs, BPSV, ESpec, V1 MIME, .idx load, update section, residency DB, LRU file + manager ops, shmem control block, .build.info, local header) is run on ~500k generated inputs per quick run; a tracking allocator refuses any single request above max(64 MiB, 1024*len) (1 GiB + 64 MiB for decompressing targets), the master attributes panics, aborts, stack overflows and CPU-budget hangs to the input in flight, minimises it and saves it as a replay.",
+         "Trusted: allocation tracking through the Rust global allocator in the worker; one input in flight per worker; a hang is only reported after a second, solitary run exceeds the larger CPU budget. Absence of crashes is not established beyond the generated inputs.",
+         "DESIGN.md §3 C02"),
+ "C03": ("pbt+enum", "exploration",
+         "model-based testing of build->serialise->parse->lookup for encoding tables, archive indices (incl. chunked), archive groups, root V1-V4, TVFS and the ContentResolver: every inserted key must return exactly its value, neighbours key+-1 and other non-inserted probes nothing, batch = element-wise single, every lookup flavour = linear scan; boundary grids enumerated",
+         "Key sets aimed at page/chunk capacity multiples +-1 (exhaustive grids: key size 1..16 x offset width 4/5/6 x {cap-1,cap,cap+1,2cap,2cap+1,3cap+1}; encoding page fills; archive-group counts around 157n; root totals 0..110 x versions; TVFS offset-width thresholds), shared 8-15 byte prefixes, all-00/all-FF keys, 1..255 encoding keys per content key; oracle = map model + linear scan + independent TVFS walk.",
+         "Trusted: the map models and the shared key generator; padding sentinels (all-zero record with size 0 / espec 0) are excluded from the domain and counted.",
+         "DESIGN.md §3 C03"),
 }
 
 NOT_YET = "check not built yet in this session (work in progress; see DESIGN.md §3 for the planned generator and oracle)"
